@@ -50,8 +50,8 @@ structure State where
   /-- the retry loop: 0 = at the top of `retry()` (parked at the hook gate when its queue is not empty),
   1 = released, at its read (`at R iter`), 2 = at its commit (`at R commit`) -/
   rStage : Nat := 0
-  /-- watchers: (id, prefix, number of emitted events already looked at) -/
-  watchers : List (Nat × Bytes × Nat) := []
+  /-- watchers: (id, prefix, number of emitted events already looked at, start revision) -/
+  watchers : List (Nat × Bytes × Nat × Nat) := []
   /-- next identifier of an un-stepped request -/
   nextId : Nat := 1000000
   deriving Repr
@@ -352,14 +352,17 @@ def step (st : State) (toks : List String) : State × String :=
       let g := seqAll g (g.dealt - g.committed + 1)
       ({ st with g := g, rStage := 0 }, s!"done R retry {repairState g rev}")
     else (st, "step R no-such-client")
-  | ["watch", id, p, _] =>
-    ({ st with watchers := (widOf id, unhx p, st.g.emitted.length) :: st.watchers.filter (·.1 != widOf id) }, s!"watch {id} ok")
+  | ["watch", id, p, r] =>
+    -- from `now` (0), or from revision r: the cached events from r on are replayed, later ones below r are dropped
+    let start := atou r
+    let seen := if start == 0 then st.g.emitted.length else (st.g.emitted.filter (·.rev < start)).length
+    ({ st with watchers := (widOf id, unhx p, seen, start) :: st.watchers.filter (·.1 != widOf id) }, s!"watch {id} ok")
   | ["drain", id] =>
     match st.watchers.find? (·.1 == widOf id) with
     | none => (st, s!"events {id} nowatch")
-    | some (_, pfx, seen) =>
-      let evs := (st.g.emitted.drop seen).filter (fun e => hasPrefix e.key pfx)
-      ({ st with watchers := (widOf id, pfx, st.g.emitted.length) :: st.watchers.filter (·.1 != widOf id) },
+    | some (_, pfx, seen, start) =>
+      let evs := (st.g.emitted.drop seen).filter (fun e => hasPrefix e.key pfx && e.rev ≥ start)
+      ({ st with watchers := (widOf id, pfx, st.g.emitted.length, start) :: st.watchers.filter (·.1 != widOf id) },
        s!"events {id} {joinOr (evs.map evStr) ","} closed=0")
   | ["create", _, _] => stepWrite st "create" pos opts
   | ["update", _, _, _] => stepWrite st "update" pos opts
